@@ -37,6 +37,23 @@ def semiMajorAxis (elem : List (List ℝ)) : ℝ := (elem.getD 1 []).getD 0 0
     (units of 1e-8 rad per Julian millennium) -/
 def leadAmp (tbl : List (List (ℝ × ℝ × ℝ))) : ℝ := ((tbl.getD 1 []).headD (0, 0, 0)).1
 
+/-- the cubic `p0 + p1 t + p2 t² + p3 t³` of a row of an orbital-element table (Meeus ch. 31), Horner form -/
+def cubic (t p0 p1 p2 p3 : ℝ) : ℝ := p0 + t * (p1 + t * (p2 + t * p3))
+
+/-- eccentricity at J2000.0 (`ORBITAL_ELEM[2][0]`) -/
+def elemEcc (elem : List (List ℝ)) : ℝ := (elem.getD 2 []).getD 0 0
+
+/-- the constant term of series 0 of a radius-vector table, in AU: the time average of `r` -/
+def meanRadius (tbl : List (List (ℝ × ℝ × ℝ))) : ℝ := ((tbl.getD 0 []).headD (0, 0, 0)).1 / 100000000
+
+/-- coefficient of `T²` of the mean longitude, degrees per century² (`table[0][2]`) -/
+def elemAccel (elem : List (List ℝ)) : ℝ := (elem.getD 0 []).getD 2 0
+
+/-- amplitude of the first term of series 2 of a table, converted from 1e-8 rad per millennium² to
+    degrees per century² (for a longitude table whose series 2 starts with the secular term `A t²`) -/
+def leadAccel (tbl : List (List (ℝ × ℝ × ℝ))) : ℝ :=
+  ((tbl.getD 2 []).headD (0, 0, 0)).1 / 100000000 * (180 / Real.pi) / 100
+
 /-- the same rate in degrees per Julian century -/
 def leadRate (tbl : List (List (ℝ × ℝ × ℝ))) : ℝ := leadAmp tbl / 100000000 * (180 / Real.pi) / 10
 
